@@ -5,6 +5,7 @@ import FrappyProofs.Lemmas.CommBook
 import FrappyProofs.Lemmas.CommTimeout
 import FrappyProofs.Lemmas.CommRet
 import FrappyProofs.Lemmas.CommCallbacks
+import FrappyProofs.Lemmas.CommExchange
 import FrappyModel.Generated.C16
 /-
 C16 — property theorems (nothing but property theorems and their non-vacuity examples).
@@ -269,7 +270,7 @@ theorem reply_pairing_run (cfg : Cfg) (cbs : List Nat) (pre : List TEv) (e : TEv
 /-- The connection state becomes visible — for EVERY accepted run: when a `recv` of caller `c` reports the closed
 connection (position i) and `c`'s call returns at position r (no return of `c` in between), the update
 `is_connected = false` by `c` lies strictly between the two. -/
-theorem state_visible_run (cfg : Cfg) (cbs : List Nat) (evs : List TEv) (hacc : Accepted cfg cbs evs)
+theorem state_visible_run (cfg : Cfg) (cbs : List Nat) (evs : List TEv) (hacc : Accepted cfg cbs evs) (hid : cfg.ident = [])
     (c i r : Nat) (res : Res) (hir : i < r) (hi : evAt evs i = some (.recv c .closed)) (hr : evAt evs r = some (.ret c res))
     (hnr : ∀ m, i < m → m < r → isRetOf c (evAt evs m) = false) :
     ∃ j, i < j ∧ j < r ∧ evAt evs j = some (.isconn c false) := by
@@ -283,7 +284,7 @@ theorem state_visible_run (cfg : Cfg) (cbs : List Nat) (evs : List TEv) (hacc : 
     obtain ⟨er, her⟩ : ∃ er, evs[r]? = some er := ⟨evs[r], by simp [hrlt]⟩
     have herv : er.ev = .ret c res := by simpa [evAt, her] using hr
     obtain ⟨sk, sk', hpre, hst⟩ := exec_cut _ evs r er her sf hex
-    have hv := vinv_exec cfg cbs (evs.take r) sk hpre
+    have hv := vinv_exec cfg cbs (evs.take r) sk hid hpre
     have hlen : (evs.take r).length = r := by simp; omega
     false_or_by_contra
     rename_i hno
@@ -336,7 +337,7 @@ theorem attemptsAtomicB_sound (log : Log) (h : attemptsAtomicB log = true) : Att
 /-- Reconnect rate limit — for EVERY accepted run in which attempts do not interleave (`AttemptsAtomic`, the effect of
 `accessLock`; monitored on the implementation): a connect attempt made on behalf of a communicate call comes at least
 the reconnect interval after EVERY earlier attempt, of whatever origin (up to the clock slack). -/
-theorem reconnect_rate_limited (cfg : Cfg) (cbs : List Nat) (evs : List TEv) (hacc : Accepted cfg cbs evs)
+theorem reconnect_rate_limited (cfg : Cfg) (cbs : List Nat) (evs : List TEv) (hacc : Accepted cfg cbs evs) (hid : cfg.ident = [])
     (hat : AttemptsAtomic evs) (i j : Nat) (hij : i < j) (hci : connectAt evs i ≠ none) (hcj : connectAt evs j = some true) :
     timeAt evs i + cfg.interval ≤ timeAt evs j + 2 * cfg.slack := by
   unfold Accepted at hacc
@@ -352,7 +353,7 @@ theorem reconnect_rate_limited (cfg : Cfg) (cbs : List Nat) (evs : List TEv) (ha
       cases hv : ej.ev <;> simp only [hv] at hcj <;> try (simp at hcj)
       subst hcj; exact ⟨_, _, rfl⟩
     obtain ⟨sk, sk', hpre, hst⟩ := exec_cut _ evs j ej hej sf hex
-    have ht := tinv_exec cfg cbs (evs.take j) sk hpre
+    have ht := tinv_exec cfg cbs (evs.take j) sk hid hpre
     have hlen : (evs.take j).length = j := by simp; omega
     have hclk : sk.clock ≤ ej.t := by
       unfold step at hst; split at hst
@@ -386,7 +387,7 @@ theorem reconnect_rate_limited (cfg : Cfg) (cbs : List Nat) (evs : List TEv) (ha
 /-- Delays honoured — for EVERY accepted run: in a multicomm call of caller `c` (started at position a with requests
 `reqs`, not yet returned), two consecutive sends of `c` at positions p < q are at least the delay of the request sent
 at p apart; that request is `reqs[m]` where m is the number of sends of the call before p. -/
-theorem delays_honoured_run (cfg : Cfg) (cbs : List Nat) (evs : List TEv) (hacc : Accepted cfg cbs evs)
+theorem delays_honoured_run (cfg : Cfg) (cbs : List Nat) (evs : List TEv) (hacc : Accepted cfg cbs evs) (hid : cfg.ident = [])
     (c a p q : Nat) (reqs : List Req) (ha : evAt evs a = some (.call c .multi reqs)) (hap : a < p) (hpq : p < q)
     (hnr : ∀ m, a < m → m < q → isRetOf c (evAt evs m) = false)
     (hp : sendAt evs p = some c) (hq : sendAt evs q = some c) (hno : ∀ m, p < m → m < q → sendAt evs m ≠ some c) :
@@ -399,7 +400,7 @@ theorem delays_honoured_run (cfg : Cfg) (cbs : List Nat) (evs : List TEv) (hacc 
     obtain ⟨eq, heq⟩ : ∃ eq, evs[q]? = some eq := ⟨evs[q], by simp [hqlt]⟩
     obtain ⟨sk, sk', hpre, hst⟩ := exec_cut _ evs q eq heq sf hex
     have hl := linv_exec cfg cbs (evs.take q) sk hpre
-    have hg := ginv_exec cfg cbs (evs.take q) sk hpre
+    have hg := ginv_exec cfg cbs (evs.take q) sk hid hpre
     have hlen : (evs.take q).length = q := by simp; omega
     have hclk : sk.clock ≤ eq.t := by
       unfold step at hst; split at hst
@@ -451,7 +452,7 @@ theorem delays_honoured_run (cfg : Cfg) (cbs : List Nat) (evs : List TEv) (hacc 
 
 /-- … and a multicomm that returns its replies does not return before the delay of the request sent last has passed
 (p: position of the last send of the call, b: position of the return). -/
-theorem delays_honoured_return (cfg : Cfg) (cbs : List Nat) (evs : List TEv) (hacc : Accepted cfg cbs evs)
+theorem delays_honoured_return (cfg : Cfg) (cbs : List Nat) (evs : List TEv) (hacc : Accepted cfg cbs evs) (hid : cfg.ident = [])
     (c a p b : Nat) (reqs : List Req) (rs : List Bytes) (ha : evAt evs a = some (.call c .multi reqs)) (hap : a < p) (hpb : p < b)
     (hnr : ∀ m, a < m → m < b → isRetOf c (evAt evs m) = false)
     (hp : sendAt evs p = some c) (hb : evAt evs b = some (.ret c (.ok rs))) (hno : ∀ m, p < m → m < b → sendAt evs m ≠ some c) :
@@ -467,7 +468,7 @@ theorem delays_honoured_return (cfg : Cfg) (cbs : List Nat) (evs : List TEv) (ha
     have hv : eb.ev = .ret c (.ok rs) := by simpa [evAt, heb] using hb
     obtain ⟨sk, sk', hpre, hst⟩ := exec_cut _ evs b eb heb sf hex
     have hl := linv_exec cfg cbs (evs.take b) sk hpre
-    have hg := ginv_exec cfg cbs (evs.take b) sk hpre
+    have hg := ginv_exec cfg cbs (evs.take b) sk hid hpre
     have hlen : (evs.take b).length = b := by simp; omega
     have hclk : sk.clock ≤ eb.t := by
       unfold step at hst; split at hst
@@ -528,7 +529,7 @@ the end of the time-out — or after the last byte-carrying `recv` of the loop, 
 clock slack.  After an empty `recv` past the time-out the loop is not continued (`mayRetry`), so this bounds the moment
 the time-out is detected.  (That the error is then RETURNED promptly is a matter of the scheduler, not of the model:
 `fails_within_timeout` monitor on the implementation.) -/
-theorem fails_within_timeout_run (cfg : Cfg) (cbs : List Nat) (evs : List TEv) (hacc : Accepted cfg cbs evs)
+theorem fails_within_timeout_run (cfg : Cfg) (cbs : List Nat) (evs : List TEv) (hacc : Accepted cfg cbs evs) (hid : cfg.ident = []) (hnm : NoMore evs)
     (c u : Nat) (hu : evAt evs u = some (.recv c .empty)) :
     ∃ p conn n, LastSend (evs.take u) p c conn n ∧
       timeAt evs u ≤ max (timeAt evs p + cfg.timeout + cfg.slack) (lastDataTime evs c p u) + cfg.gran + cfg.slack := by
@@ -543,15 +544,17 @@ theorem fails_within_timeout_run (cfg : Cfg) (cbs : List Nat) (evs : List TEv) (
     have hv : eu.ev = .recv c .empty := by simpa [evAt, heu] using hu
     obtain ⟨sk, sk', hpre, hst⟩ := exec_cut _ evs u eu heu sf hex
     have hr := rinv_exec cfg cbs (evs.take u) sk hpre
-    have he := einv_exec cfg cbs (evs.take u) sk hpre
-    have ht := tinv_exec cfg cbs (evs.take u) sk hpre
+    have he := einv_exec cfg cbs (evs.take u) sk hid hpre
+    have ht := tinv_exec cfg cbs (evs.take u) sk hid hpre
     have hlen : (evs.take u).length = u := by simp; omega
     have htu : timeAt evs u = eu.t := by simp [timeAt, heu]
     rw [step_caller_form sk eu c (by rw [hv]; rfl)] at hst
     split at hst
     · simp at hst
     · rw [hv] at hst
-      have hrd := step_recv_empty_pc _ sk' eu.t c c hst
+      have hi0 := inv_exec cfg cbs (evs.take u) sk hpre
+      have hrd := step_recv_empty_pc _ sk' eu.t c c hst (hi0.ni (by rw [ht.cfg_eq]; exact hid) c)
+        (hi0.nx (noMore_take hnm u) c)
       simp only at hrd
       obtain ⟨p, conn, n, hls, _⟩ := hr.r c hrd
       obtain ⟨h1, h2, h3⟩ := he.e c hrd p conn n hls
@@ -581,7 +584,7 @@ theorem fails_within_timeout_run (cfg : Cfg) (cbs : List Nat) (evs : List TEv) (
 each reply in the result of a call of caller `c` (return at position b) is framed (first line / first `rlen` bytes)
 from the bytes that arrived on the connection after one of `c`'s OWN sends p < b of that same call (no return of `c`
 between p and b) and before some position w ≤ b — unless the connection was replaced between p and w. -/
-theorem reply_own_ret (cfg : Cfg) (cbs : List Nat) (evs : List TEv) (hacc : Accepted cfg cbs evs)
+theorem reply_own_ret (cfg : Cfg) (cbs : List Nat) (evs : List TEv) (hacc : Accepted cfg cbs evs) (hnm : NoMore evs)
     (c b : Nat) (rs : List Bytes) (hb : evAt evs b = some (.ret c (.ok rs))) (l : Bytes) (hl : l ∈ rs) :
     FreshReply cfg (evs.take b) c l := by
   unfold Accepted at hacc
@@ -613,7 +616,7 @@ theorem reply_own_ret (cfg : Cfg) (cbs : List Nat) (evs : List TEv) (hacc : Acce
           · next hg => have := hg.2; simp only [result, hfail] at this; simpa using this
           · simp at this
       rw [hrs] at hl
-      exact hq.q c l hl hnidle
+      exact hq.q (noMore_take hnm b) c l hl hnidle
 
 /-- Callbacks once — for EVERY accepted run: let caller `c` connect successfully at position i and announce
 `is_connected = true` at v (its next event), after the communicator had closed a connection before (some `hclose`
@@ -621,7 +624,7 @@ before v: a REconnect, clean or not).  Then the events of `c` that follow are, o
 callbacks registered at v: the j-th event of `c` after v is the run of the j-th registered callback
 (j < number of registered callbacks).  So every registered callback runs exactly once (the registered names are
 distinct keys), before `c` does anything else. -/
-theorem callbacks_once_run (cfg : Cfg) (cbs : List Nat) (evs : List TEv) (hacc : Accepted cfg cbs evs)
+theorem callbacks_once_run (cfg : Cfg) (cbs : List Nat) (evs : List TEv) (hacc : Accepted cfg cbs evs) (hid : cfg.ident = [])
     (c i v m : Nat) (od : Bool) (hiv : i < v) (hvm : v < m)
     (hi : evAt evs i = some (.connect c true od)) (hv : evAt evs v = some (.isconn c true))
     (hno : ∀ x, i < x → x < v → whoAt evs x ≠ some c)
@@ -639,7 +642,7 @@ theorem callbacks_once_run (cfg : Cfg) (cbs : List Nat) (evs : List TEv) (hacc :
     obtain ⟨em, hem⟩ : ∃ em, evs[m]? = some em := ⟨evs[m], by simp [hmlt]⟩
     have hwho : em.ev.who = some c := by simpa [whoAt, evAt, hem] using hm
     obtain ⟨sk, sk', hpre, hst⟩ := exec_cut _ evs m em hem sf hex
-    have hc := cinv_exec cfg cbs (evs.take m) sk hpre
+    have hc := cinv_exec cfg cbs (evs.take m) sk hid hpre
     have hlen : (evs.take m).length = m := by simp; omega
     have hpc := hc.k3 c i od v hiv (by rw [evAt_take evs m i (by omega)]; exact hi)
       (by rw [evAt_take evs m v hvm]; exact hv)
@@ -683,7 +686,8 @@ theorem stale_discarded_partial (s s' : State) (t c conn n : Nat) (d : Bytes)
 wait_before or the delay of the request just done … -/
 theorem delays_honoured_partial_sleep (s s' : State) (t c d : Nat) (h : stepCaller s t c (.slp c d) = some s') :
     (s'.callers c).wakeAt = t + d ∧
-      (((s.callers c).pc = .slpWB ∧ d = s.cfg.waitBefore) ∨ ((s.callers c).pc = .slpD ∧ d = (s.callers c).wakeAt)) := by
+      (((s.callers c).pc = .slpWB ∧ d = s.cfg.waitBefore) ∨ ((s.callers c).pc = .slpD ∧ d = (s.callers c).wakeAt) ∨
+       ((s.callers c).pc = .idSlp ∧ d = s.cfg.waitBefore)) := by
   cases hpc : (s.callers c).pc <;> simp only [stepCaller, hpc] at h <;> try (simp at h)
   all_goals (obtain ⟨h1, h2⟩ := h; subst h2; simp [State.setC, h1])
 
@@ -696,10 +700,10 @@ theorem delays_honoured_partial_wake (s s' : State) (t c : Nat) (h : stepCaller 
 /-- fails within the time-out, step level: the read loop is left with a time-out only after an empty `recv` at or
 after the end of the time-out (up to the clock slack); an empty `recv` ends no later than `gran` after it began
 (guard of the model = assumption on the lowest layer, `AsynConn.timeout`) -/
-theorem fails_within_timeout_partial (s s' : State) (t c : Nat) (hpc : (s.callers c).pc = .read)
+theorem fails_within_timeout_partial (s s' : State) (t c : Nat) (hpc : (s.callers c).pc = .read) (hconn : s.conn ≠ none)
     (h : stepCaller s t c (.rel c) = some s') :
     ∃ te, (s.callers c).emptyAt = some te ∧ (s.callers c).endT ≤ te + s.cfg.slack ∧ (s'.callers c).failed = true := by
-  simp only [stepCaller, hpc] at h
+  simp only [stepCaller, hpc, hconn, if_false] at h
   split at h
   · next te hte =>
     split at h
@@ -714,15 +718,16 @@ theorem fails_within_timeout_partial (s s' : State) (t c : Nat) (hpc : (s.caller
 theorem recv_empty_bounded (s s' : State) (t c : Nat) (h : stepCaller s t c (.recv c .empty) = some s') :
     t ≤ (s.callers c).lastT + s.cfg.gran + s.cfg.slack := by
   cases hpc : (s.callers c).pc <;> simp only [stepCaller, hpc] at h <;> try (simp at h)
-  exact h.1.2.2.1
+  all_goals exact h.1.2.2.1
 
 /-- state visible, step level: once a `recv` has reported the closed connection the caller cannot return (nor do
-anything else) before `closeConnection` has run and `is_connected = false` has been announced -/
-theorem state_visible_partial (s : State) (t c : Nat) (e : Ev)
+anything else) before `closeConnection` has run and `is_connected = false` has been announced (communicators without
+identification: with one, another thread's failed identification may drop the connection first) -/
+theorem state_visible_partial (s : State) (t c : Nat) (e : Ev) (hid : s.cfg.ident = [])
     (hpc : (s.callers c).pc = .closing ∨ (s.callers c).pc = .visF) :
     (stepCaller s t c e).isSome = true → (∃ x, e = .hclose x) ∨ (∃ x, e = .isconn x false) := by
   intro h
-  rcases hpc with hpc | hpc <;> cases e <;> simp [stepCaller, hpc] at h ⊢
+  rcases hpc with hpc | hpc <;> cases e <;> simp [stepCaller, hpc, connGone, hid] at h ⊢
   · exact h
 
 /-- reconnect rate limit, step level: an attempt on behalf of a communicate call goes on only if the reconnect
@@ -765,6 +770,207 @@ theorem callbacks_once_partial (s s' : State) (t c n n' : Nat) (rest : List Nat)
     | nil => exact absurd rfl hr
     | cons a b => cases keep <;> simp [State.setC]
   · simp at h
+
+
+/-! ## exchanges are atomic; a dropped connection is announced; identification on connect; replies of variable length -/
+
+/-- An exchange is never interleaved with other traffic — for EVERY accepted run (identification, replies of variable
+length and any number of callers included): between the send of a command (or of an identification request) by caller
+`c` and every `recv` by which `c` reads the reply — the header and whatever `getFullReply` reads in addition — no other
+caller sends, flushes or receives.  (The communicator lock is held from before the flush until the reply is complete.) -/
+theorem exchange_atomic (cfg : Cfg) (cbs : List Nat) (evs : List TEv) (hacc : Accepted cfg cbs evs) :
+    ExchangeAtomicAll evs := by
+  intro k c out i hk hown m him hmk c' htr
+  unfold Accepted at hacc
+  cases hex : exec { cfg := cfg, cbsReg := cbs } evs with
+  | none => simp [hex] at hacc
+  | some sf =>
+    have hklt : k < evs.length := by
+      false_or_by_contra; rename_i hn
+      rw [evAt_none evs k (by omega)] at hk; simp at hk
+    obtain ⟨ek, hek⟩ : ∃ ek, evs[k]? = some ek := ⟨evs[k], by simp [hklt]⟩
+    have hekv : ek.ev = .recv c out := by simpa [evAt, hek] using hk
+    obtain ⟨sk, sk', hpre, hst⟩ := exec_cut _ evs k ek hek sf hex
+    have hx := xinv_exec cfg cbs (evs.take k) sk hpre
+    have hlen : (evs.take k).length = k := by simp; omega
+    have hsl : ∀ x, x < k → sendLikeAt (evs.take k) x = sendLikeAt evs x := by
+      intro x hxk; rw [sendLikeAt_eq, sendLikeAt_eq, evAt_take evs k x hxk]
+    have htra : ∀ x, x < k → trafficAt (evs.take k) x = trafficAt evs x := by
+      intro x hxk; rw [trafficAt_eq, trafficAt_eq, evAt_take evs k x hxk]
+    rw [step_caller_form sk ek c (by rw [hekv]; rfl)] at hst
+    split at hst
+    · simp at hst
+    · rw [hekv] at hst
+      -- the search of `ownSendBefore`
+      let p : Nat → Bool := fun x => (sendLikeAt evs x == some c) || isRetOf c (evAt evs x) || (evAt evs x == some (.flush c))
+      have hown' : (match (List.range k).reverse.find? p with
+          | some x => if sendLikeAt evs x == some c then some x else none
+          | none => none) = some i := hown
+      rcases step_recv_pc _ sk' ek.t c c out hst with hd | hexp
+      · -- draining: the last boundary event of `c` is its `flush`, not a send
+        exfalso
+        obtain ⟨f, hf, hall⟩ := hx.d c hd
+        have hfk : f < k := by
+          have : f < (evs.take k).length := by
+            false_or_by_contra; rename_i hn
+            rw [evAt_none _ f (by omega)] at hf; simp at hf
+          omega
+        rw [evAt_take evs k f hfk] at hf
+        have hfind := find_last p k f hfk (by simp [p, hf]) (fun x h1 h2 => by
+          obtain ⟨a1, a2, a3⟩ := hall x h1 (by rw [hlen]; exact h2)
+          rw [hsl x h2] at a1
+          rw [evAt_take evs k x h2] at a2 a3
+          simp only [p, Bool.or_eq_false_iff, beq_eq_false_iff_ne, ne_eq]
+          exact ⟨⟨a1, a2⟩, a3⟩)
+        rw [hfind] at hown'
+        have : sendLikeAt evs f = none := by simp [sendLikeAt, hf]
+        simp [this] at hown'
+      · obtain ⟨i', hs, hall⟩ := hx.x c hexp
+        have hik : i' < k := by have := sendLikeAt_lt hs; omega
+        rw [hsl i' hik] at hs
+        have hfind := find_last p k i' hik (by simp [p, hs]) (fun x h1 h2 => by
+          obtain ⟨_, a1, a2, a3⟩ := hall x h1 (by rw [hlen]; exact h2)
+          rw [hsl x h2] at a1
+          rw [evAt_take evs k x h2] at a2 a3
+          simp only [p, Bool.or_eq_false_iff, beq_eq_false_iff_ne, ne_eq]
+          exact ⟨⟨a1, a2⟩, a3⟩)
+        rw [hfind] at hown'
+        simp only [hs, beq_self_eq_true, if_true, Option.some.injEq] at hown'
+        subst hown'
+        have := (hall m him (by rw [hlen]; exact hmk)).1 c'
+        rw [htra m hmk] at this
+        exact this htr
+
+/-- the monitor `exchangeAtomicB` decides the clause -/
+theorem exchangeAtomicB_sound (log : Log) (h : ExchangeAtomicAll log) : exchangeAtomicB log = true := by
+  simp only [exchangeAtomicB, allBelow, List.all_eq_true, List.mem_range]
+  intro k _
+  cases hev : evAt log k with
+  | none => rfl
+  | some ev =>
+    cases ev <;> try rfl
+    rename_i c out
+    simp only
+    cases hown : ownSendBefore log c k with
+    | none => rfl
+    | some i =>
+      simp only [allBetween, List.all_eq_true, List.mem_range, Bool.or_eq_true, Bool.not_eq_eq_eq_not, Bool.not_true,
+        decide_eq_false_iff_not]
+      intro m hmk
+      by_cases him : i < m
+      · right
+        cases htr : trafficAt log m with
+        | none => rfl
+        | some c' => simpa using h k c out i hev hown m him hmk c' htr
+      · left; exact him
+
+/-- A dropped connection is announced — for EVERY accepted run (with or without identification): when caller `c`
+drops the connection (`hclose` at position i, from `closeConnection` in a failed exchange or after a failed
+identification) and its call returns at position r, the update `is_connected = false` by `c` lies strictly between. -/
+theorem closed_visible_run (cfg : Cfg) (cbs : List Nat) (evs : List TEv) (hacc : Accepted cfg cbs evs)
+    (c i r : Nat) (res : Res) (hir : i < r) (hi : evAt evs i = some (.hclose c)) (hr : evAt evs r = some (.ret c res))
+    (hnr : ∀ m, i < m → m < r → isRetOf c (evAt evs m) = false) :
+    ∃ j, i < j ∧ j < r ∧ evAt evs j = some (.isconn c false) := by
+  unfold Accepted at hacc
+  cases hex : exec { cfg := cfg, cbsReg := cbs } evs with
+  | none => simp [hex] at hacc
+  | some sf =>
+    have hrlt : r < evs.length := by
+      false_or_by_contra; rename_i hn
+      rw [evAt_none evs r (by omega)] at hr; simp at hr
+    obtain ⟨er, her⟩ : ∃ er, evs[r]? = some er := ⟨evs[r], by simp [hrlt]⟩
+    have herv : er.ev = .ret c res := by simpa [evAt, her] using hr
+    obtain ⟨sk, sk', hpre, hst⟩ := exec_cut _ evs r er her sf hex
+    have hv := winv_exec cfg cbs (evs.take r) sk hpre
+    have hlen : (evs.take r).length = r := by simp; omega
+    false_or_by_contra
+    rename_i hno
+    have hpend : PendingClose (evs.take r) c i := by
+      refine ⟨by rw [evAt_take evs r i hir]; exact hi, ?_, ?_⟩
+      · intro m h1 h2 heq
+        rw [hlen] at h2
+        rw [evAt_take evs r m h2] at heq
+        exact hno ⟨m, h1, h2, heq⟩
+      · intro m h1 h2
+        rw [hlen] at h2
+        rw [evAt_take evs r m h2]; exact hnr m h1 h2
+    have hvis := hv.w c i hpend
+    rw [step_caller_form sk er c (by rw [herv]; rfl)] at hst
+    split at hst
+    · simp at hst
+    · rw [herv] at hst
+      have := step_ret_pc2 _ sk' er.t c c res hst
+      simp only at this
+      rw [hvis] at this; simp at this
+
+/-- The mark "the next successful connect is a reconnect" (`_last_error`) is never cleared by anything a caller does —
+every single step, the exchanges of an identification included (step level; this is what keeps the reconnect callbacks
+from being skipped when `checkHWIdent` communicates between the connect and the test of the mark) -/
+theorem reconnect_mark_kept_partial (s s' : State) (t c : Nat) (e : Ev) (h : stepCaller s t c e = some s')
+    (hm : s.lastError = true) : s'.lastError = true :=
+  (step_cbs s s' t c e h).2.1 hm
+
+/-- … and when `checkHWIdent` has passed (`idend c true`) on a reconnect, the callbacks registered at that moment are
+what the caller runs next (step level; the run-level theorem `callbacks_once_run` is for communicators without
+identification) -/
+theorem callbacks_after_ident_partial (s s' : State) (t c n : Nat) (r : List Nat)
+    (hpc : (s.callers c).pc = .idEnd true) (h : stepCaller s t c (.idend c true) = some s')
+    (hm : s.lastError = true) (hreg : s.cbsReg = n :: r) : (s'.callers c).pc = .cbs (n :: r) := by
+  simp only [stepCaller, hpc, if_true] at h
+  simp only [Option.some.injEq] at h
+  subst h
+  simp [afterIdent, hm, hreg]
+
+/-- a failed identification (`idend c false`: wrong answer, time-out or disconnect during `checkHWIdent`) sets the mark
+and makes the call fail (or leaves the enclosing identification); no callback is run -/
+theorem ident_failed_partial (s s' : State) (t c : Nat)
+    (hpc : (s.callers c).pc = .idEnd false) (h : stepCaller s t c (.idend c false) = some s') :
+    s'.lastError = true ∧ ((s.callers c).idSaved = [] → (s'.callers c).failed = true) := by
+  simp only [stepCaller, hpc] at h
+  simp only [if_true, Bool.false_eq_true, if_false, Option.some.injEq] at h
+  subst h
+  refine ⟨rfl, fun hs => ?_⟩
+  simp [rcFail, hs, failTo]
+
+/-- replies of variable length, step level: `getFullReply` may ask for `n` more bytes only while the caller is still
+inside the inner `with self._lock` of its exchange (state `relI`, byte device, a reply was expected); what it gets is
+appended to the header: the first `n` bytes of the receive buffer at once, or the read loop `readX` is entered -/
+theorem variable_reply_partial (s s' : State) (t c n : Nat) (h : stepCaller s t c (.more c n) = some s') :
+    (s.callers c).pc = .relI ∧ s.cfg.bytesMode = true ∧ 0 < n ∧ (s'.callers c).held = (s.callers c).held ∧
+      ((n ≤ s.rxbuf.length ∧ (s'.callers c).pc = .relI ∧
+          (s'.callers c).replies = extendLast (s.callers c).replies (s.rxbuf.take n) ∧ s'.rxbuf = s.rxbuf.drop n) ∨
+       (s.rxbuf.length < n ∧ (s'.callers c).pc = .readX ∧ (s'.callers c).xlen = n ∧
+          (s'.callers c).endT = t + s.cfg.timeout)) := by
+  cases hpc : (s.callers c).pc <;> simp only [stepCaller, hpc] at h <;> try (simp at h)
+  obtain ⟨⟨h1, h2, h3, h4⟩, h⟩ := h
+  refine ⟨rfl, h1, h3, ?_⟩
+  split at h
+  · next hle => simp only [Option.some.injEq] at h; subst h; exact ⟨by simp, Or.inl ⟨hle, by simp, by simp, by simp [State.setC]⟩⟩
+  · next hgt => simp only [Option.some.injEq] at h; subst h; exact ⟨by simp, Or.inr ⟨by omega, by simp, by simp, by simp⟩⟩
+
+/-- byte device "ID" → "id0x" identifies itself on connect; then "A" is answered by the header "a3" and three more bytes -/
+def identCfg : Cfg := { bytesMode := true, eol := [], timeout := 2000000, waitBefore := 0, interval := 3000000,
+                        gran := 1000000, slack := 300, ident := [⟨[73, 68], 4, [105, 100]⟩] }
+
+def identRun : List TEv := [
+  ⟨5000000, .call 1 .comm [⟨[65], true, 2, 0⟩]⟩, ⟨5000000, .chk 1 false⟩, ⟨5000001, .now 1 5000001⟩, ⟨5000002, .now 1 5000002⟩,
+  ⟨5000002, .connect 1 true true⟩, ⟨5000003, .isconn 1 true⟩,
+  ⟨5000003, .chk 1 true⟩, ⟨5000003, .acq 1⟩, ⟨5000003, .flush 1⟩, ⟨5000003, .isend 1 0 0 [73, 68]⟩,
+  ⟨5100000, .arrive 0 (some 0) [105, 100, 48, 120]⟩, ⟨5100000, .recv 1 (.data [105, 100, 48, 120])⟩, ⟨5100000, .rel 1⟩,
+  ⟨5100001, .idend 1 true⟩,
+  ⟨5100002, .acq 1⟩, ⟨5100002, .flush 1⟩, ⟨5100002, .send 1 0 1 [65]⟩,
+  ⟨5200000, .arrive 0 (some 1) [97, 51, 49, 121, 122]⟩, ⟨5200000, .recv 1 (.data [97, 51, 49, 121, 122])⟩,
+  ⟨5200000, .more 1 3⟩, ⟨5200000, .rel 1⟩, ⟨5200001, .ret 1 (.ok [[97, 51, 49, 121, 122]])⟩]
+
+example : Accepted identCfg [] identRun := by unfold Accepted; decide
+-- exchange_atomic: the recv at 18 reads the reply to the send at 16; the recv at 11 that of the identification request at 9
+example : evAt identRun 18 = some (.recv 1 (.data [97, 51, 49, 121, 122])) ∧ ownSendBefore identRun 1 18 = some 16 ∧
+    ownSendBefore identRun 1 11 = some 9 ∧ exchangeAtomicB identRun = true := by decide
+-- closed_visible_run: `healRun`: hclose at 11, update at 12, return at 14
+example : evAt healRun 11 = some (.hclose 3) ∧ evAt healRun 12 = some (.isconn 3 false) ∧ evAt healRun 14 = some (.ret 3 .err) := by
+  decide
+-- the monitors agree on the run with identification and a reply of variable length
+example : staleDiscardedB true [] identRun = true ∧ closedVisibleB healRun = true ∧ moreIn identRun 1 16 21 = 3 := by decide
 
 /-! ## facts about the constants taken from the source (re-generated on every run) -/
 
